@@ -147,6 +147,14 @@ CHECKS = {
               "and upward attempt; every chain is executed on real wrappers on both drivers, refusals must leave the raw container unchanged."),
         technique="TLA+ navigation state machine enumerated by TLC + replay of every chain and attempt on the real wrappers (both drivers)",
         design="4/C15"),
+    "C17": dict(
+        text=("Values are opaque tokens preserved by copy, move, patch, merge and reopen in the H5Tree/IH5Overlay/Container specifications "
+              "(checked by TLC); the trace specification additionally tracks every embedded file (pack_file) through copy(+-metadata), "
+              "move, delete and detach and TLC compares, after every step on three drivers and on the merged IH5 containers, the bytes "
+              "read back and contentSize/sha256 of core.file with the reference; the byte strings come from a boundary pool; the "
+              "deletion-marker file must be refused on IH5 without effect."),
+        technique="TLA+ value-preservation in the container reference + trace validation of embedded bytes and file metadata over seeded continuations",
+        design="4/C17"),
 }
 
 NOT_YET = "check not built yet (work in progress)"
